@@ -41,11 +41,35 @@ CTOR_CALL = {0: "Dist(**values, **fixed)", 1: "Dist(**fixed, **values)", 2: "Dis
              3: "Dist(**values, **fixed, f_<free>=None)"}
 
 
+def as_given(values, kind):
+    """the fixed values as the user hands them over: `kind` None / "python" = the JSON numbers as they are (Python float
+    or int), "numpy" = numpy scalars (np.float64 / np.int64, e.g. read from an array or a fitted model)"""
+    if kind != "numpy":
+        return list(values)
+    return [np.int64(v) if isinstance(v, int) else np.float64(v) for v in values]
+
+
+def vary_fixed_values(rng, name, params, farg):
+    """value classes of a fixed value: whole numbers as Python ints (`f_delta=5` as in the predefined models), exact zeros
+    of location-type parameters, numpy scalars; returns (values, kind)"""
+    farg = list(farg)
+    r = int(rng.integers(0, 4))
+    if r == 1:
+        farg = [int(max(1, round(v))) if v > 0 else int(round(v)) for v in farg]
+        if name == "BetaScipyDistribution":
+            farg = [float(v) for v in farg]
+    elif r == 2:
+        farg = [0.0 if pn in ZERO_ADMISSIBLE else v for pn, v in zip(params, farg)]
+    elif r == 3:
+        farg = [0 if pn in ZERO_ADMISSIBLE else (int(max(1, round(v))) if j % 2 else v) for j, (pn, v) in enumerate(zip(params, farg))]
+    return farg, ("numpy" if rng.integers(0, 3) == 0 else "python")
+
+
 def check_ctor(case):
     name = case["family"]
     cls, params = sentinel.family(name)
     given, F, order = case["given"], case["fixed"], case["order"]
-    arg, farg = case["arg"], case["farg"]
+    arg, farg = case["arg"], as_given(case["farg"], case.get("farg_kind"))
     vals = {params[p]: arg[p] for p in given}
     fx = {"f_" + params[p]: farg[p] for p in F}
     bad = []
@@ -72,7 +96,7 @@ def check_ctor(case):
     for p, pn in enumerate(params):
         fa = getattr(inst, "f_" + pn)
         if p in F:
-            if not (bits(ps[pn]) == core.f2b(farg[p])):
+            if not (bits(ps[pn]) == core.f2b(farg[p])):  # f2b converts through float(): 5, 5.0, np.int64(5) are one value
                 bad.append((_sig(name + ".__init__", "fixed_wins", call=CTOR_CALL[order]),
                             f"{CTOR_CALL[order]} with f_{pn}={farg[p]!r}, {pn}={arg[p] if p in given else 'default'!r}: "
                             f"parameters[{pn!r}] = {ps[pn]!r}"))
@@ -93,12 +117,17 @@ def run_ctor_rows(ck, rng, n_val):
         if name in sentinel.FAMILY_ERRORS:
             continue
         for _ in range(n_val):
+            _, params = sentinel.family(name)
+            farg, kind = vary_fixed_values(rng, name, params, sentinel.random_values(rng, name))
             case = {"kind": "ctor", "family": name, "given": row["given"], "fixed": row["fixed"], "order": row["order"],
                     "arg": sentinel.random_values(rng, name),
-                    "farg": sentinel.random_values(rng, name)}
+                    "farg": farg, "farg_kind": kind}
             bad = check_ctor(case)
             ck.case(case, nontrivial=bool(row["fixed"]), sample=(len(ck.samples) < 1))
             ck.count("ctor:" + name)
+            if row["fixed"]:
+                ck.count("fixed_value_class:" + kind + ":" + ("int" if any(isinstance(farg[p], int) for p in row["fixed"]) else "float")
+                         + (":zero" if any(farg[p] == 0 for p in row["fixed"]) else ""))
             for sig, detail in bad:
                 ck.fail(sig, case, detail)
 
@@ -150,7 +179,7 @@ def check_cond(case):
 
     name = case["family"]
     cls, params = sentinel.family(name)
-    F, farg = case["fixed"], case["farg"]
+    F, farg = case["fixed"], as_given(case["farg"], case.get("farg_kind"))
     bad = []
     try:
         inst = cls(**{"f_" + params[p]: farg[p] for p in F})
@@ -168,13 +197,60 @@ def check_cond(case):
     return bad
 
 
+def check_draw(case):
+    """`draw_sample` is an evaluation too: an instance with fixed parameters, and a ConditionalDistribution over it (scalar
+    and array-valued conditioning value), draw - for the same seed - exactly what the instance constructed with the
+    effective values draws"""
+    import virocon.distributions as vd
+
+    name = case["family"]
+    cls, params = sentinel.family(name)
+    F, farg = case["fixed"], as_given(case["farg"], case.get("farg_kind"))
+    arg, dep, seed, n = case["arg"], case["dep"], case["seed"], case["n"]
+    bad = []
+
+    def draw(obj, *a, **kw):
+        with np.errstate(all="ignore"), warnings.catch_warnings():
+            warnings.simplefilter("ignore")
+            try:
+                return np.asarray(obj.draw_sample(*a, **kw), dtype=float), None
+            except Exception as e:  # noqa: BLE001
+                return None, type(e).__name__ + ": " + str(e)[:120]
+
+    eff = {pn: (float(farg[p]) if p in F else arg[p]) for p, pn in enumerate(params)}
+    want, e0 = draw(cls(**eff), n, random_state=seed)
+    got, e1 = draw(cls(**{pn: arg[p] for p, pn in enumerate(params)}, **{"f_" + params[p]: farg[p] for p in F}), n,
+                   random_state=seed)
+    if e0 is None and (e1 is not None or not sentinel.same_values(got, want)):
+        bad.append((_sig(name + ".draw_sample", "fixed_used_in_evaluation"),
+                    f"{name}(values, f_...={[farg[p] for p in F]}).draw_sample({n}, random_state={seed}) gives "
+                    f"{e1 or got.tolist()}, {name}(**{eff}).draw_sample gives {want.tolist()}"))
+    eff2 = {pn: (float(farg[p]) if p in F else dep[p]) for p, pn in enumerate(params)}
+    try:
+        inst = cls(**{"f_" + params[p]: farg[p] for p in F})
+        cd = vd.ConditionalDistribution(inst, {params[p]: _Dep(dep[p], 0.0) for p in range(len(params)) if p not in F})
+    except Exception as e:  # noqa: BLE001
+        return bad + [(_sig("ConditionalDistribution", "raises", family=name), type(e).__name__ + ": " + str(e)[:120])]
+    for given in (2.5, np.array([0.5, 1.5, 4.0])):
+        if np.ndim(given) == 0:
+            want, e0 = draw(cls(**eff2), n, random_state=seed)
+        else:
+            want, e0 = draw(cls(), n, **{pn: np.full(np.shape(given), v) for pn, v in eff2.items()}, random_state=seed)
+        got, e1 = draw(cd, n, given, random_state=seed)
+        if e0 is None and (e1 is not None or not sentinel.same_values(got, want)):
+            bad.append((_sig("ConditionalDistribution.draw_sample", "conditional_uses_fixed", family=name),
+                        f"fixed {[params[p] for p in F]}={[farg[p] for p in F]}, given={np.asarray(given).tolist()}: draws "
+                        f"{e1 or got.tolist()}, the law with the effective values {eff2} draws {want.tolist()} (seed {seed})"))
+    return bad
+
+
 def check_cond_fit(case):
     """ConditionalDistribution.fit: every per-interval distribution keeps the fixed value"""
     import virocon.distributions as vd
 
     name = case["family"]
     cls, params = sentinel.family(name)
-    F, farg = case["fixed"], case["farg"]
+    F, farg = case["fixed"], as_given(case["farg"], case.get("farg_kind"))
     bad = []
     rng = np.random.default_rng(case["data_seed"])
     theta = dict(zip(params, case["theta"]))
@@ -187,12 +263,24 @@ def check_cond_fit(case):
             inst = cls(**{"f_" + params[p]: farg[p] for p in F})
             deps = {params[p]: _Dep() for p in range(len(params)) if p not in F}
             cd = vd.ConditionalDistribution(inst, deps)
-            cd.fit(data, [1.0, 2.0, 3.0], [(0.5, 1.5), (1.5, 2.5), (2.5, 3.5)], "mle")
+            method, weights = case.get("method", "mle"), case.get("weights")
+            cd.fit(data, [1.0, 2.0, 3.0], [(0.5, 1.5), (1.5, 2.5), (2.5, 3.5)], method, weights)
+            direct = []
+            for xi in data:
+                d = cls(**{"f_" + params[p]: farg[p] for p in F})
+                d.fit(xi, method, weights)
+                direct.append(d.parameters)
         for i, ps in enumerate(cd.parameters_per_interval):
             for p in F:
                 if not rel_close(ps[params[p]], farg[p]):
                     bad.append((_sig("ConditionalDistribution.fit", "fixed_after_fit", family=name),
                                 f"interval {i}: {params[p]} = {ps[params[p]]!r}, fixed {farg[p]!r}"))
+            # the free parameters are estimated by the requested method with the requested weights: the same numbers
+            # as fitting the template's law to the interval's data directly
+            if any(core.f2b(ps[pn]) != core.f2b(direct[i][pn]) for pn in params):
+                bad.append((_sig("ConditionalDistribution.fit", "interval_fit_is_the_requested_fit", family=name),
+                            f"interval {i} (method={method!r}, weights={weights!r}): {dict(ps)} but "
+                            f"{name}(f_...).fit(data_i, {method!r}, {weights!r}) gives {dict(direct[i])}"))
         for given in (1.0, np.array([1.0, 2.5])):
             vals = cd._get_param_values(given)
             for p in F:
@@ -247,9 +335,13 @@ def make_data(case):
             x = rng.lognormal(0.3, 0.5, n)
         elif kind == "gamma":
             x = rng.gamma(2.5, 0.8, n) + 0.02
+        elif kind == "whole":
+            x = np.ceil(rng.weibull(1.6, n) * 4.0)  # whole numbers 1, 2, ... (counts, whole seconds)
         else:
             x = np.round(rng.weibull(1.4, n) * 3.0 + 0.1, 1) + 0.1
-        if name == "VonMisesDistribution":
+        if name == "VonMisesDistribution" and kind == "whole":
+            x = np.clip(x, 1, 6) - 3.0
+        elif name == "VonMisesDistribution":
             x = (x % (2 * np.pi)) - np.pi
         elif name == "BetaScipyDistribution":
             x = (x - x.min() + 0.05) / (x.max() - x.min() + 0.1)
@@ -265,6 +357,16 @@ def make_data(case):
             x = lo + sc * x if ("loc" in fx or "scale" in fx) else x
         elif "loc" in fx:
             x = x - x.min() + lo + 0.05
+    return x
+
+
+def as_container(x, container):
+    """the data as the user hands them over: float ndarray (default), Python list, or - whole-number data - an
+    integer-dtype ndarray"""
+    if container == "list":
+        return [float(v) for v in x]
+    if container == "int":
+        return np.asarray(x).astype(np.int64)
     return x
 
 
@@ -289,8 +391,9 @@ def reference_fit(case, x, before):
     F, farg = case["fixed"], case["farg"]
     row = [r for r in TABLES["fit"] if r["fam"] == name and r["fixed"] == F]
     base = base_slots(name)
-    if base is None or case.get("method", "mle") != "mle":
+    if base is None or case.get("method", "mle").lower() != "mle":
         return None
+    x = np.asarray(x, dtype=float)
     if not row or row[0]["outcome"][0] != "called":
         # the symbolic run of _fit_mle did not reach scipy (e.g. it branched on the truth value of a fixed
         # parameter): fall back to scipy's own start values; check_fit then judges with a looser tolerance
@@ -342,24 +445,28 @@ def check_fit(case):
     cls, params = sentinel.family(name)
     F, farg = case["fixed"], case["farg"]
     bad, info = [], {}
+    farg_given = as_given(farg, case.get("farg_kind"))
+    farg = [float(v) for v in farg]
     with np.errstate(all="ignore"), warnings.catch_warnings():
         warnings.simplefilter("ignore")
         x = make_data(case)
-        inst = cls(**{"f_" + params[p]: farg[p] for p in F})
+        xc = as_container(x, case.get("container"))
+        inst = cls(**{"f_" + params[p]: farg_given[p] for p in F})
         before = dict(inst.parameters)
         try:
-            inst.fit(x, case.get("method", "mle"), *( [case["weights"]] if "weights" in case else []))
+            inst.fit(xc, case.get("method", "mle"), *( [case["weights"]] if "weights" in case else []))
         except Exception as e:  # noqa: BLE001
             if _is_optimizer_failure(e):
                 info["optimizer_failure"] = type(e).__name__
                 return bad, info
-            if case.get("method", "mle") != "mle" and isinstance(e, NotImplementedError):
+            if case.get("method", "mle").lower() != "mle" and isinstance(e, NotImplementedError):
                 info["not_implemented"] = True
                 return bad, info
-            bad.append((_sig(name + ".fit", "fit_succeeds", method=case.get("method", "mle")),
-                        f"fixed {[params[p] for p in F]}: {type(e).__name__}: {str(e)[:120]}"))
+            bad.append((_sig(name + ".fit", "fit_succeeds", method=case.get("method", "mle").lower()),
+                        f"fixed {[params[p] for p in F]} (method={case.get('method', 'mle')!r}, data as "
+                        f"{case.get('container') or 'float ndarray'}): {type(e).__name__}: {str(e)[:120]}"))
             return bad, info
-    after = inst.parameters
+    after = dict(inst.parameters)
     # reference: scipy's own fit with exactly the slots pinned that the parameter map (not the code's keyword
     # translation) assigns to the fixed parameters, same starts as the code used
     ref = reference_fit(case, x, before)
@@ -410,9 +517,48 @@ def check_fit(case):
                             f"{pn} = {v!r} unchanged by the fit (fixed {[params[q] for q in F]})"))
             elif float(v) == float(before[pn]):
                 info["free_not_moved"] = pn  # stuck at its start also in scipy's own pinned fit: the optimiser's
+    if name == "LogNormalNormFitDistribution" and case.get("method", "mle").lower() == "mle":
+        # the family's documented estimator (moments of the data: mean, ddof-1 standard deviation) for the free parameter
+        xf = np.asarray(x, dtype=float)
+        doc = {"mu_norm": float(np.mean(xf)), "sigma_norm": float(np.std(xf, ddof=1))}
+        info["reference"] = True
+        for p, pn in enumerate(params):
+            if p not in F and not rel_close(after[pn], doc[pn]):
+                bad.append((_sig(name + ".fit", "estimate_given_fixed", method="mle"),
+                            f"fixed {[params[q] for q in F]}: {pn} = {float(after[pn])!r} after the fit, the moment estimate "
+                            f"of the data is {doc[pn]!r}"))
+    # still that value after fitting - also after a SECOND fit of the same object (to other data)
+    with np.errstate(all="ignore"), warnings.catch_warnings():
+        warnings.simplefilter("ignore")
+        x2 = np.asarray(x, dtype=float)[np.random.default_rng(case["data_seed"] + 1).integers(0, len(x), len(x))]
+        try:
+            inst.fit(as_container(x2, case.get("container")), case.get("method", "mle"),
+                     *([case["weights"]] if "weights" in case else []))
+            again = dict(inst.parameters)
+        except Exception as e:  # noqa: BLE001
+            again = None
+            if not _is_optimizer_failure(e):
+                bad.append((_sig(name + ".fit", "second_fit_succeeds", method=case.get("method", "mle").lower()),
+                            f"fixed {[params[p] for p in F]}: second fit of the same object: {type(e).__name__}: {str(e)[:120]}"))
+    if again is not None:
+        info["second_fit"] = True
+        for p, pn in enumerate(params):
+            fa = getattr(inst, "f_" + pn, None)
+            if p in F and (not rel_close(again[pn], farg[p]) or fa is None or not rel_close(fa, farg[p])):
+                bad.append((_sig(name + ".fit", "fixed_after_second_fit", method=case.get("method", "mle").lower()),
+                            f"f_{pn}={farg[p]!r} given; after a second fit of the same object {pn}={again[pn]!r}, f_{pn}={fa!r}"))
+            elif p not in F and (fa is not None or not np.isfinite(float(again[pn]))):
+                bad.append((_sig(name + ".fit", "free_after_second_fit", method=case.get("method", "mle").lower()),
+                            f"{pn} = {again[pn]!r}, f_{pn} = {fa!r} after a second fit of the same object"))
+        # put the object back into the state after the first fit for the evaluation check below
+        for pn, v in after.items():
+            try:
+                setattr(inst, pn, v)
+            except AttributeError:
+                pass
     # evaluation after the fit uses the fixed value
     with np.errstate(all="ignore"):
-        xs = np.quantile(x, [0.2, 0.5, 0.8])
+        xs = np.quantile(np.asarray(x, dtype=float), [0.2, 0.5, 0.8])
         eff = {pn: (farg[p] if p in F else float(after[pn])) for p, pn in enumerate(params)}
         try:
             if not sentinel.same_values(inst.cdf(xs), cls(**eff).cdf(xs), rtol=1e-10):
@@ -435,11 +581,18 @@ def fit_cases(rng, thorough):
                 for kind in ("own", "own_other_theta") + OTHER:
                     if not thorough and kind in ("gamma", "rounded") and rep == 0 and len(F) > 1:
                         continue
-                    yield {"kind": "fit", "family": name, "fixed": F,
-                           "farg": sentinel.random_values(rng, name, wide=False),
-                           "theta": sentinel.random_values(rng, name, wide=False),
-                           "data": kind, "n": int(rng.choice([500, 2000, 5000])) if thorough else 300,
-                           "data_seed": int(rng.integers(0, 2**31))}
+                    case = {"kind": "fit", "family": name, "fixed": F,
+                            "farg": sentinel.random_values(rng, name, wide=False),
+                            "theta": sentinel.random_values(rng, name, wide=False),
+                            "data": kind, "n": int(rng.choice([500, 2000, 5000])) if thorough else 300,
+                            "data_seed": int(rng.integers(0, 2**31))}
+                    # how the call is written: method spelled in upper / mixed case (the code lower-cases it), data as a list
+                    r = int(rng.integers(0, 6))
+                    if r in (0, 1):
+                        case["method"] = ("MLE", "Mle")[r]
+                    if int(rng.integers(0, 5)) == 0:
+                        case["container"] = "list"
+                    yield case
 
 
 ZERO_ADMISSIBLE = {"gamma", "mu", "loc"}  # location-type parameters: the value 0 is a legitimate fixed value
@@ -458,6 +611,38 @@ def zero_fixed_cases(rng):
                 theta[j] = 0.4  # data generated away from the fixed value, so that an ignored fixing shows
                 yield {"kind": "fit", "family": name, "fixed": [j], "farg": farg, "theta": theta,
                        "data": "own_other_theta", "n": 300, "data_seed": int(rng.integers(0, 2**31)), "gen": "zero-fixed"}
+
+
+LOCATION_LIKE = {"gamma", "mu", "loc", "mu_norm"}
+
+
+def value_class_cases(rng):
+    """value classes of the fixed value through a real fit: whole numbers as Python ints (`f_delta=5`), numpy scalars
+    (np.float64 / np.int64); and whole-number data handed over as an integer-dtype ndarray"""
+    for name, _, params in sentinel.live_families():
+        if len(params) < 2:
+            continue
+        for j, pname in enumerate(params):
+            farg = sentinel.random_values(rng, name, wide=False)
+            theta = sentinel.random_values(rng, name, wide=False)
+            kind = ("python", "numpy")[int(rng.integers(0, 2))]
+            if pname not in LOCATION_LIKE and name != "BetaScipyDistribution" or kind == "python":
+                farg[j] = int(max(1, round(farg[j]))) if farg[j] > 0 else int(round(farg[j]))
+            if name == "BetaScipyDistribution" and pname in ("loc", "scale"):
+                farg[j] = float(farg[j])
+            yield {"kind": "fit", "family": name, "fixed": [j], "farg": farg, "farg_kind": kind, "theta": theta,
+                   "data": "own", "n": 300, "data_seed": int(rng.integers(0, 2**31)), "gen": "fixed-value-class"}
+        if name == "BetaScipyDistribution":
+            continue
+        free_of_location = [j for j, pn in enumerate(params) if pn not in LOCATION_LIKE and pn != "scale"]
+        if free_of_location:
+            j = free_of_location[int(rng.integers(0, len(free_of_location)))]
+            farg = sentinel.random_values(rng, name, wide=False)
+            if name == "LogNormalNormFitDistribution":
+                farg[j] = 2.0
+            yield {"kind": "fit", "family": name, "fixed": [j], "farg": farg,
+                   "theta": sentinel.random_values(rng, name, wide=False), "data": "whole", "container": "int", "n": 300,
+                   "data_seed": int(rng.integers(0, 2**31)), "gen": "integer-dtype-data"}
 
 
 def corpus_cases():
@@ -493,6 +678,11 @@ def run_fits(ck, cases, workers):
         ck.case(case, nontrivial=True, sample=(len(ck.samples) < 4))
         ck.count("fit:" + case["family"])
         ck.count("fitdata:" + case["data"])
+        ck.count("fit_call:method=" + case.get("method", "mle") + ":data=" + (case.get("container") or "float ndarray"))
+        if case.get("gen"):
+            ck.count("fitgen:" + case["gen"])
+        if info.get("second_fit"):
+            ck.count("fit:second_fit_of_the_same_object")
         if info.get("reference"):
             ck.count("fit:compared_with_reference_fit")
         if "free_not_moved" in info:
@@ -554,6 +744,18 @@ def check_lsq(case):
                 bad.append((_sig(ent, "free_finite", method="lsq"), f"{pn} = {after[pn]!r}"))
             if p not in F and pn != "delta" and float(after[pn]) == 1.0:
                 bad.append((_sig(ent, "free_estimated", method="lsq"), f"{pn} unchanged"))
+        # estimated = the weighted least-squares estimate at the delta in force (independent exact regression of C13)
+        import c13
+
+        ref = c13.ref_fit([float(v) for v in x], case["weights"], float(after["delta"]))
+        if ref is not None and all(np.isfinite(float(v)) for v in after.values()):
+            rb, ta = c13.tolerances(ref, ref["n"])
+            ra = np.log(10) * ta + 1e-13
+            if not (c13.close(float(after["beta"]), ref["beta"], rb) and c13.close(float(after["alpha"]), ref["alpha"], ra)):
+                bad.append((_sig(ent, "free_estimated", method="lsq"),
+                            f"fixed {[params[p] for p in F]}: fit gives alpha={float(after['alpha'])!r}, beta={float(after['beta'])!r}; the "
+                            f"weighted least-squares estimate at delta={float(after['delta'])!r} (weights={case['weights']!r}) is "
+                            f"alpha={ref['alpha']!r}, beta={ref['beta']!r}"))
     else:
         if ok or not isinstance(exc, NotImplementedError):
             bad.append((_sig(ent, "unsupported_lsq_refused", method="lsq"),
@@ -627,8 +829,15 @@ def main(ck):
         "concrete values; (2) real MLE fits for every family x every non-empty proper subset of fixed parameters x "
         "data from the family (at and away from the fixed values) and from other families (Weibull, log-normal, gamma, "
         "rounded); (3) least-squares fits for every family x every subset (supported: exponentiated Weibull with "
-        "nothing / delta fixed) x weights; (4) ConditionalDistribution with and without fit; (5) the keyword-grammar "
-        "model vs scipy on accepted and rejected keywords. Non-trivial: at least one fixed parameter; distinct by SHA1")
+        "nothing / delta fixed) x weights, (alpha, beta) compared with the exact weighted regression at the delta in "
+        "force; (4) ConditionalDistribution with and without fit (MLE for every family; exponentiated Weibull with f_delta "
+        "by lsq / wlsq with keyword weights: per-interval result = the requested direct fit); (5) the keyword-grammar "
+        "model vs scipy on accepted and rejected keywords; (6) draw_sample of an instance with fixed parameters and of a "
+        "ConditionalDistribution over it (scalar and array conditioning values) vs the instance constructed with the "
+        "effective values, same seed. Fixed values as Python float / int, numpy scalars, exact 0 / 0.0 of location "
+        "parameters; every real fit is followed by a second fit of the same object on resampled data; method spelled mle "
+        "/ MLE / Mle, data as float ndarray / list / integer-dtype ndarray. Non-trivial: at least one fixed parameter; "
+        "distinct by SHA1")
     ck.assumptions = [
         "scipy.stats.<d>.fit returns a slot fixed by f0/f<name>/fix_<name>/floc/fscale unchanged (contract used by "
         "fit_keywords_accepted_and_targeted; observed on every real fit of this run)",
@@ -639,6 +848,13 @@ def main(ck):
                                       "over the reals (log(exp v) = v, 1/(1/v) = v); the 1e-12 relative round-off bound "
                                       "is observed on the real fits",
         "free parameters estimated": "that free parameters are finite and moved by the fit is observed, not proven",
+        "draw_sample": "the generated call table covers cdf / icdf / pdf; that draw_sample (of an instance with fixed "
+                       "parameters, and of a ConditionalDistribution over it) uses the fixed values is observed per run by "
+                       "seeded comparison with the instance constructed with the effective values",
+        "value classes / object re-use": "fixed values given as Python ints, numpy scalars, exact zeros; a second fit of "
+                                         "the same object; method spelled 'MLE'; list / integer-dtype data; the OMAE2020 "
+                                         "configuration (EW f_delta, wlsq, quadratic weights through a ConditionalDistribution): "
+                                         "observed per run",
     }
     if ck.proof_problems:
         bad = c05.lean_bad_rows("C11")
@@ -663,16 +879,29 @@ def main(ck):
         name = row["fam"]
         if name in sentinel.FAMILY_ERRORS:
             continue
+        _, params = sentinel.family(name)
+        farg, kind = vary_fixed_values(rng, name, params, sentinel.random_values(rng, name, wide=False))
         case = {"kind": "cond", "family": name, "fixed": row["fixed"],
-                "farg": sentinel.random_values(rng, name, wide=False),
+                "farg": farg, "farg_kind": kind,
                 "dep": sentinel.random_values(rng, name, wide=False)}
         bad = check_cond(case)
         ck.case(case, nontrivial=True, sample=False)
         ck.count("cond:" + name)
         for sig, detail in bad:
             ck.fail(sig, case, detail)
+        # draw_sample with fixed parameters (directly and through the ConditionalDistribution)
+        case = {"kind": "draw", "family": name, "fixed": row["fixed"],
+                "farg": sentinel.random_values(rng, name, wide=False), "farg_kind": kind,
+                "arg": sentinel.random_values(rng, name, wide=False),
+                "dep": sentinel.random_values(rng, name, wide=False), "n": 4, "seed": int(rng.integers(0, 2**31))}
+        bad = check_draw(case)
+        ck.case(case, nontrivial=True, sample=False)
+        ck.count("draw_sample:" + name)
+        for sig, detail in bad:
+            ck.fail(sig, case, detail)
     # (2) real fits
-    run_fits(ck, list(zero_fixed_cases(rng)) + list(fit_cases(rng, thorough)), 8 if thorough else 4)
+    run_fits(ck, list(zero_fixed_cases(rng)) + list(value_class_cases(rng)) + list(fit_cases(rng, thorough)),
+             8 if thorough else 4)
     # (3) least squares
     for case in lsq_cases(rng, 12 if thorough else 3):
         bad = check_lsq(case)
@@ -693,6 +922,25 @@ def main(ck):
             ck.count("condfit:" + name)
             for sig, detail in bad:
                 ck.fail(sig, case, detail)
+    # the OMAE2020 configuration: exponentiated Weibull with delta fixed (also as a Python int, f_delta=5), fitted by
+    # weighted least squares through a ConditionalDistribution
+    for method, weights, fdelta in (("wlsq", "quadratic", 5), ("lsq", None, 1.3), ("WLSQ", "linear", 0.7), ("mle", "quadratic", 2),
+                                    ("wlsq", "cubic", 5.0))[: 5 if thorough else 3]:
+        name = "ExponentiatedWeibullDistribution"
+        if name in sentinel.FAMILY_ERRORS:
+            break
+        _, params = sentinel.family(name)
+        j = params.index("delta")
+        farg = sentinel.random_values(rng, name, wide=False)
+        farg[j] = fdelta
+        case = {"kind": "condfit", "family": name, "fixed": [j], "farg": farg,
+                "theta": sentinel.random_values(rng, name, wide=False), "n": 200,
+                "data_seed": int(rng.integers(0, 2**31)), "method": method, "weights": weights}
+        bad = check_cond_fit(case)
+        ck.case(case, nontrivial=True, sample=False)
+        ck.count("condfit:" + name + ":" + method + ":" + str(weights))
+        for sig, detail in bad:
+            ck.fail(sig, case, detail)
     # (5) grammar
     grammar_check(ck)
     ck.extra["exhaustive"] = False
@@ -716,6 +964,8 @@ def replay(ck, payload):
         bad = check_cond(case)
     elif kind == "condfit":
         bad = check_cond_fit(case)
+    elif kind == "draw":
+        bad = check_draw(case)
     elif kind == "row":
         row = None
         for r in TABLES["get"]:
